@@ -1774,6 +1774,10 @@ class Surface(SplineGeometry):
         # Input type validation
         if not isinstance(value, (list, tuple)):
             raise GeomdlException("'trims' setter only accepts a list or a tuple containing the trimming curves")
+        # The setter sets the array of trim curves: drop the existing ones (and the tessellation which depends on them)
+        self._trims = []
+        if self._tsl_component is not None:
+            self._tsl_component.reset()
         # Trim curve validation
         for i, v in enumerate(value):
             try:
